@@ -10,7 +10,7 @@ from . import src as S
 from .core import *  # noqa: F401,F403
 from .vals import *  # noqa: F401,F403
 from .schema import CLASS_MODULE, SCHEMA, class_of_annotation
-from .ev_expr import ExprMixin
+from .ev_expr import ExprMixin, UNBOUND
 from .ev_stmt import StmtMixin
 from .ev_call import CallMixin
 from .ev_spec import SpecMixin
@@ -71,6 +71,7 @@ class Engine(ExprMixin, StmtMixin, CallMixin, SpecMixin):
         self.spec_mode = 0
         self.nofork = 0
         self.unfolded: set = set()
+        self._lemmas_done: set = set()
         self.ghost: dict = {}
         self.user_exc_sites = 0
         self.old_state = ({}, {})
@@ -178,6 +179,14 @@ class Engine(ExprMixin, StmtMixin, CallMixin, SpecMixin):
         LEMMA-base: stmt[induct := 0]; LEMMA-step: induct >= 0 and stmt => stmt[induct := induct + 1] (for fresh values of
         the variables); the universally quantified lemma is then available to every obligation of the function."""
         for lem in (self.contract.ghost or {}).get("lemmas", []):
+            needs = lem.get("needs") or []
+            if any(fr.locals.get(n, UNBOUND) is UNBOUND for n in needs):
+                continue  # stated once the locals it talks about exist (see lemma_hook)
+            if lem["name"] in self._lemmas_done:
+                continue
+            self._lemmas_done.add(lem["name"])
+            assume = self.assume_axiom if needs else self.assume
+
             def inst(kterm, tag):
                 extra = {}
                 for v, ty in lem["vars"].items():
@@ -191,7 +200,7 @@ class Engine(ExprMixin, StmtMixin, CallMixin, SpecMixin):
             base, _ = inst(z3.IntVal(0), "lem")
             hyp, _ = inst(k, "lem")
             step, _ = inst(k + 1, "lem")
-            if self.paths <= 1:
+            if self.paths <= 1 or needs:
                 self.oblige("LEMMA-base", lem["name"], base, self.fn)
                 self.oblige("LEMMA-step", lem["name"], z3.Implies(z3.And(k >= 0, hyp), step), self.fn)
             qk = z3.Int("q_k")
@@ -207,7 +216,12 @@ class Engine(ExprMixin, StmtMixin, CallMixin, SpecMixin):
                 body = self.truth(self.spec_eval(lem["stmt"], fr, extra=extra))
             finally:
                 self.unfold_depth = saved_depth
-            self.assume(z3.ForAll(qs, z3.Implies(qk >= 0, body)))
+            assume(z3.ForAll(qs, z3.Implies(qk >= 0, body)))
+
+    def lemma_hook(self, fr, name):
+        """a local a lemma `needs` has just been bound"""
+        if fr is self.frames[0] and any(name in (l.get("needs") or []) for l in (self.contract.ghost or {}).get("lemmas", [])):
+            self.apply_lemmas(fr)
 
     def cover_check(self, site, node=None):
         """vacuity guard (DESIGN 2.8): the *full* path condition (with the quantified hypotheses) must be satisfiable
